@@ -9,22 +9,22 @@ COQ_PROPS = "Props/C20.v"
 DRIVER_NAME = "c20"
 HARNESS = {"bin": "c20"}
 THEOREMS = [
-    "C20_visit: no_inline_placeholder t -> visit_document t = expected_log t  (the complete call log = visit_document, then for every node of `nodes t` in preorder its matching hook and the dispatching hooks around it)",
-    "C20_visit_hooks: no_inline_placeholder t -> filter is_node_hook (visit_document t) = map node_hook (nodes t)",
-    "C20_visit_mut: no_inline_placeholder t -> the default VisitMut makes the same calls and leaves the tree unchanged",
-    "C20_rewrite: forall g t, tree after a VisitMut whose scalar hooks do g = map_scalars g t, and it made the same calls as Visit (no hypothesis)",
+    "C20_visit: forall t, visit_document t = expected_log t  (the complete call log = visit_document, then for every node of `nodes t` in preorder its matching hook and the dispatching hooks around it)",
+    "C20_visit_hooks: forall t, filter is_node_hook (visit_document t) = map node_hook (nodes t)",
+    "C20_visit_mut: forall t, the default VisitMut makes the same calls and leaves the tree unchanged",
+    "C20_rewrite: forall g t, tree after a VisitMut whose scalar hooks do g = map_scalars g t, and it made the same calls as Visit",
     "C20_rewrite_integers / C20_rewrite_strings: the two instances exercised by the harness",
     "C20_rewrite_nodes / C20_rewrite_scalar_list: the rewritten document has the same nodes in the same order, each the image of the old one; its scalars are the old ones with g applied",
     "C20_once: exists a NoDup, document-ordered list of ALL positions of the tree such that the node-level calls are one for one the matching hook on the node at each position",
-    "C20_visit_placeholder_refuted: with an Item::None entry inside an inline table (doc[\"t\"][\"x\"] auto-vivification) visit_table_like_kv is called for the placeholder (root cause of F11); replayed on the implementation by the `ph` cases",
+    "C20_placeholder_regression: an Item::None placeholder inside an inline table (doc[\"t\"][\"x\"] auto-vivification) gets no hook call (finding F11, repaired in /repo; replayed on the implementation by the `ph` cases)",
 ]
 RULE = ("random valid documents from lib/gen_toml.py (ref_eval == valid, within_limits; depth 3 and 4, small and varied key pools; "
         "dotted-key tables, implicit super-tables, arrays of tables, inline tables and arrays nested in each other), hand-written nesting seeds, "
-        "the toml-test 1.0.0 valid corpus; per document: logging Visit, logging VisitMut, integer- and string-rewriting VisitMut; "
-        "non-trivial = at least 3 nodes and at least one nested container")
+        "the toml-test 1.0.0 valid corpus, placeholder-carrying edited documents; per document: logging Visit, logging VisitMut, integer- and "
+        "string-rewriting VisitMut; non-trivial = at least 3 nodes and at least one nested container")
 ASSUMPTIONS = [
     "a visitor is modelled as one that logs every hook and continues with the default body; other overriding visitors (DocumentFormatter, Pretty) are exercised by C07/C11, not here",
-    "the hypothesis no_inline_placeholder of C20_visit/_visit_mut/_once is not proved of parse_document (whole-parser invariant, belongs to the WF backbone of DESIGN.md 6); it is checked on every generated document (no `In` event in the implementation's log)",
+    "the theorems hold for every tree of the model's type tbl; an ArrayOfTables holding non-table items or an Array holding non-value items (only reachable through IndexMut assignment) is outside / skipped by the model exactly as by ArrayOfTables::iter / Array::iter",
     "the independent walk of the harness uses the same public iterators as the tree dump; completeness with respect to the TEXT is checked against the log derived from the reference interpreter's tree (gen_toml.ref_eval) for generated documents",
 ]
 
@@ -197,8 +197,14 @@ def expect_rws(tree):
 
 def oracle(case, line):
     if case.cmd == "ph":
-        # edited trees are outside the property's quantifier (valid parsed documents); the case
-        # replays the witness of C20_visit_placeholder_refuted for the correspondence only
+        # an edited document holding an Item::None placeholder (regression for finding F11)
+        if not line.startswith("ok "):
+            return "unexpected observation: %s" % line[:80]
+        f = fields(line)
+        if f.get("walk") != "same":
+            return "Visit on a document with a placeholder: the logged calls differ from the independent walk"
+        if "In" in f.get("visit", "").split(","):
+            return "visit_item was called on an Item::None placeholder"
         return None
     if line == "err":
         if case.meta.get("kind") in ("generated", "seed", "corpus"):
